@@ -47,6 +47,50 @@ func (w *World) heapCheck() string {
 			hs = append(hs, h{s, n, c, w.ro[s]})
 		}
 	}
+	for i, st := range w.abandoned {
+		for _, n := range st.GetCollectionNames() {
+			hs = append(hs, h{-1 - i, n, st.GetCollection(n), true})
+		}
+	}
+	// reference accounting (clause `acct` of the invariant): between operations the only holders of
+	// a version are handles; per lineage the oldest live version has refs = #handles, every newer
+	// one refs = #handles + 1 (the chain reference of its live predecessor)
+	type vkey struct{ lock, addr uintptr }
+	handles := map[vkey]int{}
+	refsOf := map[vkey]int64{}
+	seqOf := map[vkey]uint64{}
+	oldest := map[uintptr]uint64{}
+	seen := map[uintptr]bool{}
+	for _, x := range hs {
+		ri := gkvlite.VerifRoot(x.c)
+		k := vkey{ri.Lock, ri.Addr}
+		handles[k]++
+		refsOf[k] = ri.Refs
+		seqOf[k] = ri.Seq
+		if !seen[ri.Lock] || ri.Seq < oldest[ri.Lock] {
+			oldest[ri.Lock] = ri.Seq
+			seen[ri.Lock] = true
+		}
+	}
+	var keys []vkey
+	for k := range handles {
+		keys = append(keys, k)
+	}
+	sort.Slice(keys, func(i, j int) bool {
+		if keys[i].lock != keys[j].lock {
+			return keys[i].lock < keys[j].lock
+		}
+		return seqOf[keys[i]] < seqOf[keys[j]]
+	})
+	for _, k := range keys {
+		want := int64(handles[k])
+		if seqOf[k] != oldest[k.lock] {
+			want++
+		}
+		if refsOf[k] != want {
+			return fmt.Sprintf("bad:refs-accounting refs=%d handles=%d chained-in=%v", refsOf[k], handles[k], seqOf[k] != oldest[k.lock])
+		}
+	}
 	for _, x := range hs {
 		bad := ""
 		cnt := 0
